@@ -33,12 +33,16 @@ def main():
     kf = known.load(a.prop)
     S = {"evaluations": 0, "verdicts": {}, "nontrivial": set(), "samples": [],
          "stats": {}, "classes": {}, "max_steps": 0, "sum_steps": 0, "known_hits": {},
-         "inconclusive": 0, "last_fail": None, "harness": None, "excluded": 0}
+         "inconclusive": 0, "last_fail": None, "first_fail_t": 0, "harness": None, "excluded": 0}
     t0 = time.time()
     ctx = {"flavour": a.flavour, "tier": a.tier, "variant": a.variant,
            "native": a.flavour.startswith("native")}
 
+    shrink_budget = 45.0 if a.tier == "quick" else 300.0
+
     def run_one(case):
+        if S["last_fail"] is not None and time.time() - S["first_fail_t"] > shrink_budget:
+            return  # stop shrinking: keep the smallest failing case found so far
         text = mod.render(case, ctx)
         res = ex.run(text)
         S["evaluations"] += 1
@@ -74,6 +78,8 @@ def main():
         if hit:
             S["known_hits"][hit] = S["known_hits"].get(hit, 0) + 1
             return
+        if S["last_fail"] is None:
+            S["first_fail_t"] = time.time()
         S["last_fail"] = {"case": text, "message": msg, "signature": res.signature()}
         raise AssertionError(msg)
 
